@@ -80,7 +80,7 @@ func mapRangeFindings(p *Prog, pkgs []string) []c06Finding {
 				for bb := range body {
 					for _, x := range bb.Instrs {
 						switch y := x.(type) {
-						case *ssa.Next, *ssa.Extract, *ssa.MapUpdate, *ssa.Lookup, *ssa.BinOp, *ssa.UnOp, *ssa.If, *ssa.Jump, *ssa.Phi, *ssa.DebugRef, *ssa.FieldAddr, *ssa.Field, *ssa.Convert, *ssa.ChangeType, *ssa.IndexAddr, *ssa.MakeInterface:
+						case *ssa.Next, *ssa.Extract, *ssa.MapUpdate, *ssa.Lookup, *ssa.BinOp, *ssa.UnOp, *ssa.If, *ssa.Jump, *ssa.Phi, *ssa.DebugRef, *ssa.FieldAddr, *ssa.Field, *ssa.Convert, *ssa.ChangeType, *ssa.IndexAddr, *ssa.MakeInterface, *ssa.Alloc, *ssa.Slice:
 						case *ssa.Store:
 							// storing the appended slice back into a local is part of the append idiom
 						case *ssa.Call:
@@ -638,6 +638,53 @@ func c06Sorting(p *Prog, r *Report) {
 	}
 	if !dedup && compact != nil && srt != nil && dominatesInstr(srt, compact) {
 		dedup = true
+	}
+	// collected as the keys of a map first (a set): every appended element is a key drawn from a range over a map
+	if !dedup && len(appends) > 0 {
+		all := true
+		for _, a := range appends {
+			fromMapKey := false
+			if len(a.Call.Args) == 2 {
+				for _, o := range origins(a.Call.Args[1]) {
+					if ex, ok := o.(*ssa.Extract); ok && ex.Index == 1 {
+						if nx, ok := ex.Tuple.(*ssa.Next); ok {
+							if rg, ok := nx.Iter.(*ssa.Range); ok {
+								if _, isMap := rg.X.Type().Underlying().(*types.Map); isMap {
+									fromMapKey = true
+								}
+							}
+						}
+					}
+				}
+				if sl, ok := a.Call.Args[1].(*ssa.Slice); ok {
+					if al, ok := sl.X.(*ssa.Alloc); ok {
+						for _, rf := range refs(al) {
+							if ia, ok := rf.(*ssa.IndexAddr); ok {
+								for _, r2 := range refs(ia) {
+									if st, ok := r2.(*ssa.Store); ok {
+										if ex, ok := st.Val.(*ssa.Extract); ok && ex.Index == 1 {
+											if nx, ok := ex.Tuple.(*ssa.Next); ok {
+												if rg, ok := nx.Iter.(*ssa.Range); ok {
+													if _, isMap := rg.X.Type().Underlying().(*types.Map); isMap {
+														fromMapKey = true
+													}
+												}
+											}
+										}
+									}
+								}
+							}
+						}
+					}
+				}
+			}
+			if !fromMapKey {
+				all = false
+			}
+		}
+		if all {
+			dedup, why = true, ""
+		}
 	}
 	// a hand-written remover of adjacent repeats applied after the sort
 	if !dedup && srt != nil && join != nil {
